@@ -631,7 +631,10 @@ def cur_version_pattern(text, current_version, version_pattern):
 def init_pick(cwd):
     from bumpver import config, pathlib as pl
     with _Cwd(cwd):
-        return {"ok": str(config._pick_config_filepath(pl.Path(".")))}
+        try:
+            return {"ok": str(config._pick_config_filepath(pl.Path(".")))}
+        except Exception as ex:            # noqa: BLE001  (an outcome of the real code, never a crash of the check)
+            return {"err": exc_name(ex), "ok": None}
 
 
 def init_text(cwd):
@@ -639,7 +642,7 @@ def init_text(cwd):
     with _Cwd(cwd):
         try:
             return {"ok": config.default_config(config.init_project_ctx("."))}
-        except (ValueError, KeyError, IndexError) as ex:
+        except Exception as ex:            # noqa: BLE001
             return {"err": exc_name(ex)}
 
 
@@ -648,7 +651,10 @@ def init_parses(cwd):
     from bumpver import config
     _quiet()
     with _Cwd(cwd):
-        ctx, cfg = config.init(project_path=".", cfg_missing_ok=True)
+        try:
+            ctx, cfg = config.init(project_path=".", cfg_missing_ok=True)
+        except Exception:                  # noqa: BLE001
+            return None
     return cfg is not None
 
 
